@@ -200,6 +200,9 @@ def mutate(js, rng):
         name = rng.choice(["NoSuchType", "a.b.Missing", "x.NoSuch", "Int", "record", "STRING"])
         if (name if "." in name else (ns + "." + name if ns else name)) in defined:
             return None
+        if rng.random() < 0.25:
+            # the undefined name in the dict spelling {"type": name}
+            return put(js, path, {"type": name}), kind, depth
         return put(js, path, name), kind, depth
     if kind == "duplicate_name":
         named = [(p, n, ns, d) for p, n, ns, d in pos if isinstance(n, dict) and n.get("type") in ("record", "enum", "fixed")]
